@@ -6,6 +6,7 @@
 import LW.Proofs.Band
 import LW.Proofs.FrameRT
 import LW.Generated.BandData
+import LW.Proofs.BandMasks
 namespace LW.C15
 open LW Outcome BandProofs
 
@@ -41,6 +42,14 @@ theorem C15_nopanic (b : BandState) (i : Int) (v : Bool) (f : Nat) (mn mx : Int)
 theorem C15_cflist_channels (b : BandState) (l : CFList) (h : b.cfListChannels = some l) :
     ∃ fs, l.payload = .channels fs ∧ fs.length = 5 ∧ l.typ = 0 ∧
       ∀ f ∈ fs, f = 0 ∨ ∃ ch ∈ b.up, ch.custom = true ∧ f = BitVec.ofNat 32 ch.freq := cflist_channels_custom b l h
+
+/-- the channel-mask CFList (US915, AU915, CN470 style bands) is exactly the enabled channels: type 1, and bit i of mask j is set
+iff uplink channel 16·j + i is enabled, for every channel of the plan after any history -/
+theorem C15_cflist_masks (b : BandState) (l : CFList) (h : b.cfListMasks = some l) :
+    l.typ = 1 ∧ ∃ ms, l.payload = .masks ms ∧
+      ∀ j i, i < 16 → 16 * j + i < b.up.length →
+        ∃ m, ms[j]? = some m ∧ m.getLsbD i = (b.up.getD (16 * j + i) default).enabled :=
+  BandMasks.cflist_masks_exact b l h
 
 /-- MAC-layer encodability: a channel-list CFList whose frequencies are multiples of 100 Hz below 2^24·100 Hz is accepted by
 the join-accept encoder. (ISM2400 frequencies violate the hypothesis: known finding c15-ism2400-frequencies-not-encodable.) -/
